@@ -277,5 +277,6 @@ def obligations():
         Obligation("C02.serialise.b", ob_serialise, kind="bounded", bound="0..2 hot and 0..1 cold utilities on the record", functions=[EnergyTarget.serialize_json]),
     ]
     from . import C03
-    obs += _deps(C03, ("C03.utilities_list.b", "C03.extremes"), "C02.dep.", "utility streams start from zero duty; default utilities reach the extreme stream temperatures")
+    obs += _deps(C03, ("C03.utilities_list.b", "C03.extremes", "C03.default.decision"), "C02.dep.",
+                 "utility streams start from zero duty; default utilities reach the extreme stream temperatures and are added whenever no supplied utility does (the utility-side balance needs a utility that can take the duty)")
     return obs
